@@ -7,7 +7,8 @@
     the same bytes. Formatting a column type and parsing the result is a fixpoint for every
     type of the dialect.
 
-    What is proved here is the type layer (M-TYPE): FormatType/ParseType per dialect and the
+    What is proved here is the type layer (M-TYPE): FormatType/ParseType per dialect (SQLite, MySQL,
+    PostgreSQL) and the
     TypeRegistry / HCL type-expression layer over the registries dumped from the running Go
     code (gen/Gen_Registry_*.v). The table/column/index/foreign-key/check/attribute layer
     (sql/internal/specutil, */sqlspec*.go) is not modelled; it is covered by the schema-level
@@ -16,7 +17,8 @@ From Coq Require Import String.
 From Coq Require Import List NArith ZArith Bool.
 From Atlas Require Import Base.Bytes Hcl.Str Hcl.RegistryDefs Hcl.Registry
   Hcl.TypesSqlite Hcl.SqliteProofs gen.Gen_Registry_sqlite
-  Hcl.TypesMysql Hcl.MysqlProofs gen.Gen_Registry_mysql gen.Gen_Registry_postgres Hcl.RegistryWf.
+  Hcl.TypesMysql Hcl.MysqlProofs gen.Gen_Registry_mysql gen.Gen_Registry_postgres Hcl.RegistryWf
+  Hcl.TypesPg Hcl.PgProofs.
 Import ListNotations.
 
 (** * SQLite *)
@@ -77,6 +79,75 @@ Example C15_ex_mysql_fix :
   Mysql.FormatType (Mysql.DecimalType (bs "NUMERIC") 65 30 true) = Ok (bs "decimal(65,30) unsigned") /\
   MysqlProofs.wf (Mysql.TimeType (bs "timestamp") (Some 6%Z) None) = true.
 Proof. vm_compute. auto. Qed.
+
+(** * PostgreSQL *)
+
+(** Fixpoint, full strength: false. FormatType prints the name of a user-defined / enum / domain /
+    composite type verbatim, so a type whose name is a built-in name re-parses as the built-in
+    type (EnumType "int" -> "int" -> IntegerType -> "integer"). Not a finding: such a name cannot
+    be created in PostgreSQL without quoting, and the HCL layer refers to enums by reference. *)
+Theorem C15_format_parse_fix_pg_refuted :
+  exists t s, Pg.FormatType t = Ok s /\
+    ~ (exists t', Pg.ParseType s = Ok t' /\ Pg.FormatType t' = Ok s).
+Proof. exact PgProofs.pg_fix_refuted. Qed.
+Print Assumptions C15_format_parse_fix_pg_refuted.
+
+(** What holds, for unbounded bit length / character size / time precision / numeric precision and
+    scale: every type of every class whose T is (case-insensitively) a name of its class and
+    whose parameters are non-negative ([PgProofs.wf_all]) is a fixpoint of
+    ParseType o FormatType -- through the hand matchers of reArray and reInterval. Per class:
+    user-defined / enum / domain / composite names are single words without ( ) , space [ that
+    are not built-in names ([udt_ok]); interval fields are the 13 fields of reInterval with
+    precision nil or 0..6 (what PostgreSQL accepts); an array type is [n[]] where n is the text
+    arrayType extracts and ParseType accepts n ([arr_wf]; the element is parsed recursively). *)
+Theorem C15_format_parse_fix_pg :
+  forall t s, PgProofs.wf_all t = true -> Pg.FormatType t = Ok s ->
+    exists t', Pg.ParseType s = Ok t' /\ Pg.FormatType t' = Ok s.
+Proof. exact PgProofs.pg_fix_all. Qed.
+Print Assumptions C15_format_parse_fix_pg.
+
+Example C15_ex_pg_fix :
+  PgProofs.wf_all (Pg.DecimalType (bs "NUMERIC") 1000 30) = true /\
+  Pg.FormatType (Pg.DecimalType (bs "NUMERIC") 1000 30) = Ok (bs "numeric(1000,30)") /\
+  PgProofs.wf_all (Pg.TimeType (bs "timestamp with time zone") (Some 3%Z)) = true /\
+  Pg.FormatType (Pg.TimeType (bs "timestamp with time zone") (Some 3%Z)) = Ok (bs "timestamptz(3)") /\
+  PgProofs.wf_all (Pg.IntervalType (bs "interval") (bs "DAY TO SECOND") (Some 2%Z)) = true /\
+  PgProofs.wf_all (Pg.ArrayType (bs "character varying(5)[]")) = true /\
+  PgProofs.wf_all (Pg.ArrayType (bs "int[][]")) = false /\
+  PgProofs.wf_all (Pg.EnumType (bs "my_enum")) = true /\ PgProofs.wf_all (Pg.EnumType (bs "int")) = false.
+Proof. vm_compute. repeat split; reflexivity. Qed.
+
+(** reArray hand matcher: a text whose last byte is not ']' ' ' 'y' 'Y' is never read as an array
+    (for every text, by induction over the automaton), and neither is a text without ' ' and '['. *)
+Theorem C15_pg_array_matcher_negative :
+  forall s, PgProofs.endset (last s 0%N) = false \/ PgProofs.no_sp_lb s = true -> Pg.arrayType s = None.
+Proof.
+  intros s [H|H]; [apply PgProofs.arrayType_none; exact H|].
+  unfold Pg.arrayType. rewrite PgProofs.arr_scan_none_nosp by exact H. reflexivity.
+Qed.
+Print Assumptions C15_pg_array_matcher_negative.
+
+Example C15_ex_pg_array :
+  Pg.arrayType (bs "int ARRAY[3] [ ]") = Some (bs "int") /\ Pg.arrayType (bs "a[] ARRAY") = Some (bs "a[]") /\
+  Pg.arrayType (bs "numeric(10,2)") = None /\ Pg.intervalField (bs "interval year to second") = Some (bs "second").
+Proof. vm_compute. repeat split; reflexivity. Qed.
+
+(** The recursion of ParseType through array element types never needs more fuel: one more unit of
+    fuel never changes a successful outcome's success (so fuel = S (length typ) is a faithful bound). *)
+Theorem C15_pg_parse_fuel_mono :
+  forall f s t, Pg.ParseType_f f s = Ok t -> exists t', Pg.ParseType_f (S f) s = Ok t'.
+Proof. exact PgProofs.ParseType_f_mono. Qed.
+Print Assumptions C15_pg_parse_fuel_mono.
+
+Example C15_ex_pg_fuel : exists t, Pg.ParseType_f 3 (bs "a[] ARRAY[]") = Ok t.
+Proof. eexists. vm_compute. reflexivity. Qed.
+
+(** ... and the array of every type name of the registry dumped from the code is well formed
+    (finite; re-checked against gen/Gen_Registry_postgres.v on every run). *)
+Theorem C15_registry_arrays_pg :
+  forallb (fun s => PgProofs.arr_wf (ts_T s ++ bs "[]")) registry_postgres = true.
+Proof. vm_compute. reflexivity. Qed.
+Print Assumptions C15_registry_arrays_pg.
 
 (** * Registries (all three dialects) *)
 
